@@ -11,6 +11,10 @@
 //	                      a loopback connection, SetMTU(<mtu>) applied; the frames are what reaches the
 //	                      transport's link service; rd writes to the peer end (=> k=<n> w), the frames
 //	                      are reported at eof (=> nil f=<all frames>)
+//	new tcps|unixs <mtu>  send-side leg: the peer's end is a real transport of the same kind with
+//	                      SetMTU(<mtu>); `sf` hands the next block to ITS sendFrame (as a link service
+//	                      does, => k=<len> w); the receiving transport keeps the default MTU; the
+//	                      frames that reach its link service are reported at eof
 //	rde <n>               like rd, but the bytes are returned TOGETHER with an error that the
 //	                      ignoreError callback swallows (n = 0: the error alone); fw kind only
 //	blk <typ> <len> <seed> append one well-formed TLV block (type, value length, fill seed) to the
@@ -137,6 +141,10 @@ type run struct {
 	hung    bool
 	sock    net.Conn // socket kinds (tcp, unix): the peer's end of the real connection
 	closed  bool
+	// send-side leg (tcps, unixs): the peer's end is a real transport too
+	send   func([]byte) // its sendFrame
+	closeS func()       // its Close
+	blocks [][]byte     // blocks defined and not yet sent
 }
 
 var cur *run
@@ -147,6 +155,8 @@ var sockSeq int
 // transport's link service.  The kernel decides the chunking, so frames are reported at eof.
 func startSock(kind string, mtu int) *run {
 	r := &run{kind: kind, done: make(chan string, 1), offered: -1}
+	sendLeg := strings.HasSuffix(kind, "s")
+	kind = strings.TrimSuffix(kind, "s")
 	var ln net.Listener
 	var err error
 	if kind == "tcp" {
@@ -169,7 +179,13 @@ func startSock(kind string, mtu int) *run {
 		return nil
 	}
 	var mu sync.Mutex
-	recv, err := fwface.VerifStreamReceiver(kind, srv, mtu, func(b []byte) {
+	// the receiving transport keeps the default MTU when the blocks are sent through a real
+	// transport whose MTU is <mtu> (send-side leg); otherwise <mtu> is applied to the receiver
+	rmtu := mtu
+	if sendLeg {
+		rmtu = maxPkt
+	}
+	recv, err := fwface.VerifStreamReceiver(kind, srv, rmtu, func(b []byte) {
 		mu.Lock()
 		r.frames = append(r.frames, strconv.Itoa(len(b))+":"+strconv.FormatUint(fnv64(b), 16))
 		mu.Unlock()
@@ -178,6 +194,15 @@ func startSock(kind string, mtu int) *run {
 		cl.Close()
 		srv.Close()
 		return nil
+	}
+	if sendLeg {
+		_, snd, cls, err := fwface.VerifStreamTransport(kind, cl, mtu, func([]byte) {})
+		if err != nil {
+			cl.Close()
+			srv.Close()
+			return nil
+		}
+		r.send, r.closeS = snd, cls
 	}
 	r.sock = cl
 	go func() {
@@ -190,7 +215,7 @@ func (r *run) sockWrite(op string, n int) string {
 	if r.closed {
 		return "dead " + r.result
 	}
-	if op != "rd" {
+	if op != "rd" || r.send != nil {
 		return "skip"
 	}
 	if n > len(r.pending) {
@@ -214,7 +239,11 @@ func (r *run) sockFinish() string {
 		return "dead " + r.result
 	}
 	r.closed = true
-	r.sock.Close()
+	if r.closeS != nil {
+		r.closeS() // Close of the sending transport closes its connection
+	} else {
+		r.sock.Close()
+	}
 	select {
 	case r.result = <-r.done:
 	case <-time.After(watchdog):
@@ -320,7 +349,7 @@ func exec(op string) string {
 		if len(f) < 2 {
 			return "bad-op"
 		}
-		if f[1] == "tcp" || f[1] == "unix" {
+		if f[1] == "tcp" || f[1] == "unix" || f[1] == "tcps" || f[1] == "unixs" {
 			if len(f) != 3 {
 				return "bad-op"
 			}
@@ -336,8 +365,28 @@ func exec(op string) string {
 		if cur == nil || len(f) != 4 {
 			return "skip"
 		}
-		cur.pending = append(cur.pending, Block(common.Atou(f[1]), common.Atoi(f[2]), common.Atoi(f[3]))...)
+		b := Block(common.Atou(f[1]), common.Atoi(f[2]), common.Atoi(f[3]))
+		if cur.send != nil {
+			cur.blocks = append(cur.blocks, b)
+			return "ok"
+		}
+		cur.pending = append(cur.pending, b...)
 		return "ok"
+	case "sf": // hand the next block to the sending transport's sendFrame, as a link service does
+		if cur == nil || cur.send == nil || len(f) != 1 {
+			return "skip"
+		}
+		if cur.closed {
+			return "dead " + cur.result
+		}
+		if len(cur.blocks) == 0 {
+			return "skip"
+		}
+		b := cur.blocks[0]
+		cur.blocks = cur.blocks[1:]
+		cur.sock.SetWriteDeadline(time.Now().Add(watchdog))
+		cur.send(b)
+		return fmt.Sprintf("k=%d w", len(b))
 	case "rd", "rde":
 		if cur == nil || len(f) != 2 {
 			return "skip"
@@ -471,6 +520,14 @@ func gen(g *common.Gen) {
 		kind := "fw"
 		if i%4 == 3 {
 			kind = "app"
+		}
+		if i%32 == 22 || i%32 == 30 { // blocks SENT through the real transport and read back by another one
+			kind = "tcps"
+			if i%32 == 30 {
+				kind = "unixs"
+			}
+			genSendLeg(g, r, kind)
+			continue
 		}
 		if i%8 == 6 { // the real stream transports' receive loops on a loopback connection
 			kind = "tcp"
@@ -635,6 +692,58 @@ func gen(g *common.Gen) {
 		g.Op("eof")
 		_ = pendingLens
 	}
+}
+
+// genSendLeg: blocks are handed one by one to the sendFrame of a real stream transport (MTU mostly
+// the default 8800, sometimes lower) and read back through the real receive loop of a second
+// transport; sizes include MTU-1, MTU, MTU+1 (a block larger than the MTU is legitimately dropped by
+// the sending transport), tiny blocks, the 252/253/257 length-form boundaries and random sizes.
+func genSendLeg(g *common.Gen, r *common.Rand, kind string) {
+	mtu := maxPkt
+	if r.Chance(1, 3) {
+		mtu = common.Pick(r, []int{128, 260, 1280, 1500, 4000, 8799})
+		if r.Chance(1, 2) {
+			mtu = r.Range(128, maxPkt)
+		}
+	}
+	g.Op("new %s %d", kind, mtu)
+	g.Stat("hist-" + kind)
+	g.Stat("style-send-leg")
+	n := r.Range(12, 40)
+	for j := 0; j < n; j++ {
+		var size int
+		switch r.Intn(8) {
+		case 0:
+			size = mtu
+			g.Stat("sf-size-eq-mtu")
+		case 1:
+			size = mtu - 1
+		case 2:
+			size = mtu + 1
+		case 3:
+			size = common.Pick(r, []int{2, 3, 254, 257, 258, maxPkt})
+		case 4:
+			size = r.Range(2, 300)
+		default:
+			size = r.Range(2, maxPkt)
+		}
+		for !sizeOk(size) {
+			size--
+			if size < 2 {
+				size = 2
+			}
+		}
+		sizedBlock(g, r, size)
+		if r.Chance(1, 4) && j+1 < n { // two blocks queued before they are sent
+			sizedBlock(g, r, r.Range(2, 200))
+			g.Op("sf")
+			g.Stat("sf")
+			j++
+		}
+		g.Op("sf")
+		g.Stat("sf")
+	}
+	g.Op("eof")
 }
 
 // bufCap is the size of readTlvStream's receive buffer; it only steers the generator (the model
